@@ -49,8 +49,8 @@ def view_aliasing(ctx, o3):
                 ref = o3.TensorProduct(i1, i2, io, [(a, b, c, m, w, float(tp.instructions[j].path_weight) ** 2) for j, (a, b, c, m, w) in enumerate(ins) if j != k],
                                        irrep_normalization="none", path_normalization="none")
                 with torch.no_grad():
-                    # copy remaining weights
-                    src = [v.detach().clone() for j, v in zip(wk, [tp.weight_view_for_instruction(j) for j in wk]) if j != k]
+                    # copy remaining weights (through the iterator, which is independent of the by-index lookup)
+                    src = [v.detach().clone() for (j, _ins, v) in tp.weight_views(yield_instruction=True) if j != k]
                     for dst, s_ in zip(ref.weight_views(), src):
                         dst.copy_(s_)
                 exp = ref(x1, x2)
